@@ -120,6 +120,7 @@ type pField struct {
 type pConst struct {
 	Name  string `json:"name"`
 	Value string `json:"value"` // Go literal text
+	File  string `json:"file,omitempty"` // another file of the enum's package ("" = next to the type)
 }
 
 type pType struct {
@@ -337,12 +338,24 @@ func writeProjectP(dir string, pc *pCase, repo string, hook bodyHook, prefix str
 			fb.body.WriteString("}\n\n")
 		case "enum":
 			fmt.Fprintf(&fb.body, "type %s %s\n\n", t.Name, t.Base)
-			if len(t.Consts) > 0 {
-				fb.body.WriteString("const (\n")
-				for _, c := range t.Consts {
-					fmt.Fprintf(&fb.body, "\t%s %s = %s\n", c.Name, t.Name, c.Value)
+			byFile := map[string][]pConst{}
+			order := []string{}
+			for _, c := range t.Consts {
+				if _, ok := byFile[c.File]; !ok {
+					order = append(order, c.File)
 				}
-				fb.body.WriteString(")\n\n")
+				byFile[c.File] = append(byFile[c.File], c)
+			}
+			for _, cf := range order {
+				dst := fb
+				if cf != "" {
+					dst = get(t.Pkg, cf)
+				}
+				dst.body.WriteString("const (\n")
+				for _, c := range byFile[cf] {
+					fmt.Fprintf(&dst.body, "\t%s %s = %s\n", c.Name, t.Name, c.Value)
+				}
+				dst.body.WriteString(")\n\n")
 			}
 		case "alias":
 			fmt.Fprintf(&fb.body, "type %s %s\n\n", t.Name, localType(t.Base, t.Pkg, fb.imports, pkgs))
